@@ -25,7 +25,8 @@ from .data import (Calendar, TimePoint,
                    get_timepoint_for_now as now2point)
 from .dumpers import TimePointDumper
 from .parsers import TimePointParser, DurationParser, TimeRecurrenceParser
-from metomi.isodatetime.exceptions import OffsetValueError
+from metomi.isodatetime.exceptions import (
+    OffsetValueError, StrftimeSyntaxError)
 
 
 class DateTimeOperator(object):
@@ -242,7 +243,13 @@ class DateTimeOperator(object):
         try:
             return self.time_point_parser.strptime(
                 time_point_str, parse_format)
-        except ValueError:
+        except StrftimeSyntaxError:
+            # Only a format that uses directives this library does not
+            # implement (e.g. %a, %b, %Z) goes to the datetime library. Where
+            # the format is understood but the string does not match it, say
+            # so: the lenient time.strptime (1 or 2 digits per field) would
+            # otherwise read e.g. the ISO 8601 ordinal date 2004031T204619 as
+            # 2004-03-01T20:46:19.
             return self.get_datetime_strptime(time_point_str, parse_format)
 
     @staticmethod
